@@ -396,6 +396,7 @@ func (m *Nitro) newBSDestructor() skiplist.BarrierSessionDestructor {
 		// If gclist is not empty
 		if ref != nil {
 			freelist := (*skiplist.Node)(ref)
+			verifYield(VerifPtFreeSent)
 			m.freechan <- freelist
 		}
 	}
@@ -668,6 +669,7 @@ func (m *Nitro) collectionWorker(w *Writer) {
 
 			barrier := m.store.GetAccesBarrier()
 			barrier.FlushSession(unsafe.Pointer(gclist))
+			verifYield(VerifPtGCDone)
 		}
 	}
 }
@@ -684,6 +686,7 @@ func (m *Nitro) freeWorker(w *Writer) {
 		}
 
 		m.store.Stats.Merge(&w.slSts3)
+		verifYield(VerifPtFreeDone)
 	}
 
 	m.shutdownWg2.Done()
@@ -709,6 +712,7 @@ func (m *Nitro) collectDead() {
 
 		atomic.StoreUint32(&m.lastGCSn, sn.sn)
 		m.gcchan <- sn.gclist
+		verifYield(VerifPtGCSent)
 		m.gcsnapshots.DeleteNode(node, CompareSnapshot, buf2, &m.gcsnapshots.Stats)
 	}
 }
